@@ -22,6 +22,17 @@ def run(ctx, n):
                            "detail": f"model out of date with the source: the translation of `{name}` from {cylseg2lean.REL_SRC} "
                                      "differs from the frozen, reviewed definition the theorems and the driver use"})
     ctx.cov["cylseg_model_in_sync"] = not stale
+    # the generated statements "linear in the magnetization direction" (Lemmas/KernCylSegLinGen.lean, C05): one per case function
+    # of the source as it is now?
+    try:
+        stale_lin = cylseg2lean.cylseg_lin_in_sync(os.path.join(REPO, cylseg2lean.REL_SRC))
+    except cylseg2lean.Refusal as r:
+        stale_lin = []
+        ctx.broken.append({"kind": "translator-refusal", "name": "CylSegLin", "detail": f"cylseg2lean.render_lin refused: {r}"})
+    for name in stale_lin:
+        ctx.broken.append({"kind": "model-out-of-date", "name": f"Lemmas/KernCylSegLinGen.lean:{name}",
+                           "detail": f"the statement `{name}` generated from the parameter lists of {cylseg2lean.REL_SRC} differs from the frozen one"})
+    ctx.cov["cylseg_lin_statements_in_sync"] = not stale_lin
     if ctx.driver_ok:
         st = kern_family.run_stream(ctx, n, only=kern_family.CYLSEG_KINDS)
         st.pop("samples", None)
